@@ -81,6 +81,24 @@ def nested_family():
     return out
 
 
+def self_dual_family():
+    """diagrams over the self-dual object of rigid.PRO (abstract name 9): there a cap can be closed by a cup on the same
+    two legs - a loop, which denotes the dimension of the wire and is not a snake - next to genuine snakes"""
+    P = [9, 0]
+    K = lambda kind, dom, cod, id_=0: {"id": id_, "kind": kind, "dom": dom, "cod": cod, "dg": 0}
+    cap, cup, f = K(3, [], [P, P]), K(2, [P, P], []), K(0, [P], [P], 1)
+    D = lambda dom, cod, boxes, offs: {"dom": dom, "cod": cod, "boxes": boxes, "offs": offs}
+    return [D([], [], [cap, cup], [0, 0]),                                   # a loop
+            D([P], [P], [cap, f, cup], [1, 0, 1]),                            # a loop beside a box
+            D([P], [P], [cap, cup], [1, 1]),                                  # a loop beside a wire
+            D([P], [P], [cap, cup], [0, 1]),                                  # right snake
+            D([P], [P], [cap, cup], [1, 0]),                                  # left snake
+            D([P], [P], [cap, f, cup], [0, 0, 1]),                            # right snake with a box on the bend
+            D([], [], [cap, f, cup], [0, 0, 0]),                              # a box on the loop
+            D([], [], [cap, cap, cup, cup], [0, 1, 0, 0]),                    # two nested pairs
+            D([P], [P], [cap, cap, cup, cup], [0, 2, 1, 1])]                  # a snake and a loop
+
+
 def cap_into_cup(d):
     """does some wire produced by a cap end in a cup (without passing through a box)?"""
     wires, fresh = [("in", k) for k in range(len(d["dom"]))], 0
@@ -128,7 +146,7 @@ def run(tier, seed, t0):
             snakes = rnd.sample(snakes, 3 * c["replay"])
         interesting = rnd.sample(interesting, min(len(interesting), c["replay"] // 3))
         rest = rnd.sample(rest, min(len(rest), c["replay"] // 4))
-        todo = snakes + interesting + rest + nested_family()
+        todo = snakes + interesting + rest + nested_family() + self_dual_family()
         procs = 16
         chunks = [(todo[k::procs], os.path.join(work, "obs-%d.ndjson" % k)) for k in range(procs)]
         with mp.get_context("fork").Pool(procs) as pool:
